@@ -113,7 +113,7 @@ PROPS = {
     },
     "C02": {
         "module": "GoatProofs.C02", "facts": True,
-        "theorems": ["Goat.C02.verify_then_consume", "Goat.C02.newBlockHashes_consumes", "Goat.C02.newConsolidation_consumes", "Goat.C02.newPubkey_consumes",
+        "theorems": ["Goat.C02.verify_then_consume", "Goat.C02.newBlockHashes_consumes", "Goat.C02.newConsolidation_consumes", "Goat.C02.newPubkey_consumes", "Goat.C02.processWithdrawal_consumes", "Goat.C02.replaceWithdrawal_consumes",
                      "Goat.C02.nonProposal_keeps_seq", "Goat.C02.acceptProposer_keeps_seq", "Goat.C02.endBlocker_keeps_seq", "Goat.C02.processRequest_keeps_seq",
                      "Goat.C02.accept_needs_current_seq", "Goat.C02.stale_vote_rejected", "Goat.C02.other_epoch_rejected", "Goat.C02.reach_seq_mono",
                      "Goat.C02.accepted_vote_never_again", "Goat.C02.code_writers_closed",
@@ -122,7 +122,6 @@ PROPS = {
                     {"name": "app", "quick": 1200, "thorough": 6000, "seeds": 8}],
         "assumptions": ["BLS aggregate verification is an oracle parameter (see C01)",
                         "the closure of the set of code paths that write the sequence / randao is a regenerated source fact (factgen: SSA call graph of /repo), discharged by `decide` on every run"],
-        "partial": "processWithdrawal / replaceWithdrawal consume the vote through the same helper (covered by FactsThms.voted_handlers_verify_and_consume and the streams) but have no separate *_consumes theorem",
     },
     "C07": {
         "module": ["GoatProofs.C07", "GoatProofs.FactsThms"], "facts": True,
@@ -173,6 +172,19 @@ PROPS = {
         "streams": [{"name": "app-guard", "quick": 900, "thorough": 6000, "seeds": 12}],
         "assumptions": ["signature and account-sequence verification are cosmos-sdk's ante decorators (real code in the stream; facts stated to the model)",
                         "the list of registered sdk.Msg implementations is read from the real interface registry of app.New on every run (msgreg) and the ante chain order from the source (factgen)"],
+    },
+    "C18": {
+        "module": "GoatProofs.C18",
+        "theorems": ["Goat.C18.initGenesisCore_spec", "Goat.C18.initGenesis_establishes_Derived", "Goat.C18.derived_unique", "Goat.C18.import_export",
+                     "Goat.C18.Reproduces.exact", "Goat.C18.export_import", "Goat.C18.initRelayer_ok_iff", "Goat.C18.relayer_import_export",
+                     "Goat.C18.RReproduces.queue", "Goat.C18.relayer_export_import", "Goat.C18.derivedOk_iff", "Goat.C18.queueOk_iff",
+                     "Goat.C18.lockingRoundTripOk_of", "Goat.C18.relayerRoundTripOk_of", "Goat.C18.roundTripOk_of", "Goat.C18.c18_round_trip_partial",
+                     "Goat.C18.Finding.duplicate_key_hash_blocks_import", "Goat.C18.Finding.boarding_order_changes_next_proposer"],
+        "streams": [{"name": "app-export", "quick": 700, "thorough": 5000, "seeds": 12}],
+        "assumptions": ["reachable states satisfy the invariants the round-trip theorems assume (Derived, WfState, RImportable, QueueDerived): on every export of the streams the model evaluates the executable round-trip check on the current state and the verdict is compared with the real application's export -> InitChain -> export",
+                        "the bitcoin and goat modules' genesis functions are not modelled in Lean: their round trip is decided by the real export/import in the stream only",
+                        "queries are functions of the module collections; all collections of the four modules are compared"],
+        "partial": "'for any reachable state' is carried by the invariants' preservation (C13/C16) plus the per-export executable check, not by one end-to-end theorem; bitcoin/goat genesis are tied differentially only",
     },
     "C19": {
         "module": "GoatProofs.C19",
